@@ -677,3 +677,244 @@ package modfile
 //@     invariant len(stmt.Token) == 2 && stmt.Token[0] == "toolchain" && stmt.Token[1] == name && !stmt.InBlock
 //@     decreases len(f.Syntax.Stmt) - i
 //@   props C08 C15
+
+//@ # ====================== lexer and parser (C20) ======================
+//@ # the lexer state: remaining is the tail of complete that starts at the current byte offset
+//@ spec macro LEX(in *input) bool =
+//@     in != nil && 0 <= in.pos.Byte && in.pos.Byte <= len(in.complete) && len(in.remaining) == len(in.complete) - in.pos.Byte
+//@     && (len(in.remaining) > 0 ==> samearr(in.remaining, in.complete)) && (len(in.remaining) > 0 ==> off(in.remaining) == off(in.complete) + in.pos.Byte)
+//@     && in.pos.Line >= 1 && in.pos.Line <= 1 + in.pos.Byte && in.pos.LineRune >= 1 && in.pos.LineRune <= 1 + in.pos.Byte
+
+//@ func newInput
+//@   allocates
+//@   ensures [C20] initial_state: LEX(result) && fresh(result) && result.pos.Byte == 0 && result.pos.Line == 1 && result.pos.LineRune == 1 && len(result.parseErrors) == 0
+//@   props C20
+
+//@ # Error reports a positioned error and does not return (it panics with the error list, which parse recovers)
+//@ func (*input).Error
+//@   trusted "appends Error{in.filename, in.pos, errors.New(s)} to in.parseErrors and panics with &in.parseErrors (the address of a field inside the input escapes into the panic value: outside the subset); it never returns"
+//@   requires in != nil
+//@   modifies input.parseErrors, []Error
+//@   allocates
+//@   ensures false
+//@   props C20
+
+//@ func (*input).eof
+//@   requires in != nil
+//@   ensures result == (len(in.remaining) == 0)
+//@   props C20
+
+//@ func (*input).peekRune
+//@   requires in != nil
+//@   ensures len(in.remaining) == 0 ==> result == 0
+//@   ensures len(in.remaining) > 0 ==> result == DR(string(in.remaining))
+//@   props C20
+
+//@ func (*input).peekPrefix
+//@   requires in != nil
+//@   ensures result == (len(in.remaining) >= len(prefix) && (forall k int :: 0 <= k && k < len(prefix) ==> in.remaining[k] == prefix[k]))
+//@   loop 0:
+//@     invariant 0 <= i && i <= len(prefix) && i <= len(in.remaining)
+//@     invariant forall k int :: 0 <= k && k < i ==> in.remaining[k] == prefix[k]
+//@     decreases len(prefix) - i
+//@   props C20
+
+//@ func (*input).peek
+//@   requires in != nil
+//@   ensures result == in.token.kind
+//@   props C20
+
+//@ # number of newline bytes among the first n bytes: the line number is one more
+//@ spec func NLC(s string, n int) int decreases n = if n <= 0 then 0 else NLC(s, n - 1) + (if s[n-1] == '\n' then 1 else 0)
+//@ lemma NLC_skip(s string, a int, b int)
+//@   requires 0 <= a && a <= b && b <= len(s) && (forall k int :: a <= k && k < b ==> s[k] != '\n')
+//@   ensures NLC(s, b) == NLC(s, a)
+//@   induction b - a
+//@   trigger NLC(s, b), NLC(s, a)
+//@   props C20
+//@ spec macro LINEOK(in *input) bool = in.pos.Line == 1 + NLC(string(in.complete), in.pos.Byte)
+
+//@ func (*input).readRune
+//@   requires LEX(in) && LINEOK(in) && len(in.remaining) > 0
+//@   modifies input.remaining, input.pos, Position.Line, Position.LineRune, Position.Byte, input.parseErrors, []Error
+//@   ensures [C20] state_kept: LEX(in)
+//@   ensures [C20] line_counts_newlines: LINEOK(in)
+//@   ensures [C20] advances: in.pos.Byte > old(in.pos.Byte) && in.pos.Byte <= old(in.pos.Byte) + 4 && len(in.remaining) < old(len(in.remaining)) && in.pos.Line >= old(in.pos.Line)
+//@   ensures result == old(DR(string(in.remaining))) && in.pos.Byte == old(in.pos.Byte) + old(DS(string(in.remaining)))
+//@   ensures in.complete == old(in.complete) && in.tokenStart == old(in.tokenStart) && in.token == old(in.token)
+//@   ensures forall l *Line :: l.Start == old(l.Start) && l.End == old(l.End)
+//@   ensures forall b *LineBlock :: b.Start == old(b.Start) && b.LParen.Pos == old(b.LParen.Pos) && b.RParen.Pos == old(b.RParen.Pos)
+//@   uses NLC_skip utf8_decode
+//@   hint string(in.complete)[in.pos.Byte:]
+//@   hint NLC(string(in.complete), in.pos.Byte + 1)
+//@   props C20
+
+//@ # a token is being scanned: tokenStart is the tail of complete at the token's start, at or before the current offset
+//@ spec macro TOKSTART(in *input) bool =
+//@     0 <= in.token.pos.Byte && in.token.pos.Byte <= in.pos.Byte && len(in.tokenStart) == len(in.complete) - in.token.pos.Byte
+//@     && (len(in.tokenStart) > 0 ==> samearr(in.tokenStart, in.complete) && off(in.tokenStart) == off(in.complete) + in.token.pos.Byte)
+//@     && in.token.pos.Line >= 1 && in.token.pos.Line <= in.pos.Line
+//@ # the current token: start and end offsets ordered, inside the input, line numbers consistent with them
+//@ spec macro TOKOK(in *input) bool =
+//@     0 <= in.token.pos.Byte && in.token.pos.Byte <= in.token.endPos.Byte && in.token.endPos.Byte <= in.pos.Byte
+//@     && in.token.pos.Line == 1 + NLC(string(in.complete), in.token.pos.Byte) && in.token.endPos.Line == 1 + NLC(string(in.complete), in.token.endPos.Byte)
+//@     && (in.token.kind != 0 - 1 ==> in.token.pos.Byte < in.token.endPos.Byte)
+
+//@ func (*input).startToken
+//@   requires LEX(in) && LINEOK(in)
+//@   modifies input.tokenStart, input.token, token.text, token.pos, Position.Line, Position.LineRune, Position.Byte
+//@   ensures LEX(in) && LINEOK(in) && TOKSTART(in) && in.token.pos == in.pos && in.token.pos.Byte == in.pos.Byte && in.token.pos.Line == in.pos.Line
+//@   ensures in.pos == old(in.pos) && in.remaining == old(in.remaining) && in.complete == old(in.complete)
+//@   ensures forall l *Line :: l.Start == old(l.Start) && l.End == old(l.End)
+//@   ensures forall b *LineBlock :: b.Start == old(b.Start) && b.LParen.Pos == old(b.LParen.Pos) && b.RParen.Pos == old(b.RParen.Pos)
+//@   props C20
+
+//@ func (*input).endToken
+//@   requires LEX(in) && LINEOK(in) && TOKSTART(in) && in.token.pos.Line == 1 + NLC(string(in.complete), in.token.pos.Byte) && (kind != 0 - 1 ==> in.token.pos.Byte < in.pos.Byte)
+//@   modifies input.token, token.kind, token.text, token.endPos, Position.Line, Position.LineRune, Position.Byte
+//@   ensures [C20] token_positions: LEX(in) && LINEOK(in) && TOKOK(in) && in.token.kind == kind && in.token.endPos.Byte == in.pos.Byte && in.token.pos.Byte == old(in.token.pos.Byte)
+//@   ensures in.pos == old(in.pos) && in.remaining == old(in.remaining) && in.complete == old(in.complete)
+//@   ensures forall l *Line :: l.Start == old(l.Start) && l.End == old(l.End)
+//@   ensures forall b *LineBlock :: b.Start == old(b.Start) && b.LParen.Pos == old(b.LParen.Pos) && b.RParen.Pos == old(b.RParen.Pos)
+//@   props C20
+
+//@ # token kinds: _EOF = -1, _EOLCOMMENT = -2, _IDENT = -3, _STRING = -4, _COMMENT = -5; punctuation by ASCII code
+//@ func tokenKind.isComment
+//@   pure
+//@   ensures result == (k == 0 - 5 || k == 0 - 2)
+//@   props C20
+//@ func tokenKind.isEOL
+//@   pure
+//@   ensures result == (k == 0 - 1 || k == 0 - 2 || k == 10)
+//@   props C20
+
+//@ func isIdent
+//@   pure
+//@   ensures result ==> c != 0 && c != ' ' && c != '(' && c != ')' && c != '[' && c != ']' && c != '{' && c != '}' && c != ','
+//@   props C20
+
+//@ # readToken: keeps the lexer state consistent, leaves a token whose positions are ordered and agree with the
+//@ # byte offsets, consumes at least one byte unless it reports end of file, and reaches readRune only with input left
+//@ spec macro PREFIX2(in *input, a int, b int) bool = len(in.remaining) >= 2 && in.remaining[0] == a && in.remaining[1] == b
+//@ func (*input).readToken
+//@   requires LEX(in) && LINEOK(in)
+//@   modifies input.remaining, input.pos, Position.Line, Position.LineRune, Position.Byte, input.tokenStart, input.token, token.kind, token.text, token.pos, token.endPos
+//@   modifies input.comments, []Comment, input.parseErrors, []Error
+//@   allocates
+//@   ensures [C20] state_kept: LEX(in) && LINEOK(in) && in.complete == old(in.complete)
+//@   ensures [C20] token_positions: TOKOK(in)
+//@   ensures [C20] progress: in.token.kind == 0 - 1 || len(in.remaining) < old(len(in.remaining))
+//@   ensures [C20] eof_only_at_end: in.token.kind == 0 - 1 ==> len(in.remaining) == 0
+//@   ensures [C20] starts_after_previous: in.token.pos.Byte >= old(in.pos.Byte)
+//@   ensures forall l *Line :: l.Start == old(l.Start) && l.End == old(l.End)
+//@   ensures forall b *LineBlock :: b.Start == old(b.Start) && b.LParen.Pos == old(b.LParen.Pos) && b.RParen.Pos == old(b.RParen.Pos)
+//@   loop 0:
+//@     invariant LEX(in) && LINEOK(in) && in.complete == old(in.complete) && len(in.remaining) <= old(len(in.remaining)) && in.pos.Byte >= old(in.pos.Byte)
+//@     invariant forall l *Line :: l.Start == old(l.Start) && l.End == old(l.End)
+//@     invariant forall b *LineBlock :: b.Start == old(b.Start) && b.LParen.Pos == old(b.LParen.Pos) && b.RParen.Pos == old(b.RParen.Pos)
+//@     decreases len(in.remaining)
+//@   loop 1:
+//@     invariant LEX(in) && LINEOK(in) && in.complete == old(in.complete) && TOKSTART(in) && in.token.pos.Line == 1 + NLC(string(in.complete), in.token.pos.Byte)
+//@     invariant len(in.remaining) < old(len(in.remaining)) && in.token.pos.Byte >= old(in.pos.Byte) && in.token.pos.Byte < in.pos.Byte
+//@     invariant forall l *Line :: l.Start == old(l.Start) && l.End == old(l.End)
+//@     invariant forall b *LineBlock :: b.Start == old(b.Start) && b.LParen.Pos == old(b.LParen.Pos) && b.RParen.Pos == old(b.RParen.Pos)
+//@     decreases len(in.remaining)
+//@   loop 2:
+//@     invariant LEX(in) && LINEOK(in) && in.complete == old(in.complete) && TOKSTART(in) && in.token.pos.Line == 1 + NLC(string(in.complete), in.token.pos.Byte)
+//@     invariant len(in.remaining) < old(len(in.remaining)) && in.token.pos.Byte >= old(in.pos.Byte) && in.token.pos.Byte < in.pos.Byte
+//@     invariant forall l *Line :: l.Start == old(l.Start) && l.End == old(l.End)
+//@     invariant forall b *LineBlock :: b.Start == old(b.Start) && b.LParen.Pos == old(b.LParen.Pos) && b.RParen.Pos == old(b.RParen.Pos)
+//@     decreases len(in.remaining)
+//@   loop 3:
+//@     invariant LEX(in) && LINEOK(in) && in.complete == old(in.complete) && TOKSTART(in) && in.token.pos.Line == 1 + NLC(string(in.complete), in.token.pos.Byte)
+//@     invariant len(in.remaining) <= old(len(in.remaining)) && in.token.pos.Byte >= old(in.pos.Byte)
+//@     invariant len(in.remaining) < old(len(in.remaining)) || (len(in.remaining) > 0 && isIdent(DR(string(in.remaining))) && !PREFIX2(in, '/', '/'))
+//@     invariant in.token.pos.Byte < in.pos.Byte || (len(in.remaining) > 0 && isIdent(DR(string(in.remaining))) && !PREFIX2(in, '/', '/'))
+//@     invariant forall l *Line :: l.Start == old(l.Start) && l.End == old(l.End)
+//@     invariant forall b *LineBlock :: b.Start == old(b.Start) && b.LParen.Pos == old(b.LParen.Pos) && b.RParen.Pos == old(b.RParen.Pos)
+//@     decreases len(in.remaining)
+//@   uses utf8_decode
+//@   props C20
+
+//@ # what the parser relies on between tokens
+//@ spec macro PARSEST(in *input) bool = LEX(in) && LINEOK(in) && TOKOK(in) && (in.token.kind == 0 - 1 ==> len(in.remaining) == 0)
+//@ func (*input).lex
+//@   requires PARSEST(in)
+//@   modifies input.remaining, input.pos, Position.Line, Position.LineRune, Position.Byte, input.tokenStart, input.token, token.kind, token.text, token.pos, token.endPos
+//@   modifies input.comments, []Comment, input.parseErrors, []Error
+//@   allocates
+//@   ensures [C20] returns_current_token: result == old(in.token)
+//@   ensures [C20] state_kept: PARSEST(in) && in.complete == old(in.complete) && in.file == old(in.file)
+//@   ensures [C20] progress: in.token.kind == 0 - 1 || len(in.remaining) < old(len(in.remaining))
+//@   ensures [C20] positions_ordered: in.token.pos.Byte >= old(in.token.endPos.Byte)
+//@   ensures forall l *Line :: l.Start == old(l.Start) && l.End == old(l.End)
+//@   ensures forall b *LineBlock :: b.Start == old(b.Start) && b.LParen.Pos == old(b.LParen.Pos) && b.RParen.Pos == old(b.RParen.Pos)
+//@   props C20
+
+//@ func (*input).parseLine
+//@   requires PARSEST(in) && !in.token.kind.isEOL()
+//@   modifies input.remaining, input.pos, Position.Line, Position.LineRune, Position.Byte, input.tokenStart, input.token, token.kind, token.text, token.pos, token.endPos
+//@   modifies input.comments, []Comment, input.parseErrors, []Error
+//@   allocates
+//@   ensures [C20] state_kept: PARSEST(in) && in.complete == old(in.complete) && in.file == old(in.file)
+//@   ensures [C20] line_positions: result != nil && fresh(result) && result.InBlock && len(result.Token) >= 1 && result.Start.Byte == old(in.token.pos.Byte) && result.Start.Byte <= result.End.Byte && result.End.Byte <= in.token.pos.Byte
+//@   ensures [C20] progress: len(in.remaining) < old(len(in.remaining)) || in.token.kind == 0 - 1
+//@   ensures forall l *Line :: !fresh(l) ==> l.Start == old(l.Start) && l.End == old(l.End)
+//@   ensures forall b *LineBlock :: !fresh(b) ==> b.Start == old(b.Start) && b.LParen.Pos == old(b.LParen.Pos) && b.RParen.Pos == old(b.RParen.Pos)
+//@   loop 0:
+//@     invariant PARSEST(in) && in.complete == old(in.complete) && in.file == old(in.file) && len(tokens) >= 1
+//@     invariant start.Byte == old(in.token.pos.Byte) && start.Byte <= end.Byte && end.Byte <= in.token.pos.Byte
+//@     invariant len(in.remaining) < old(len(in.remaining)) || in.token.kind == 0 - 1
+//@     invariant forall l *Line :: !fresh(l) ==> l.Start == old(l.Start) && l.End == old(l.End)
+//@     invariant forall b *LineBlock :: !fresh(b) ==> b.Start == old(b.Start) && b.LParen.Pos == old(b.LParen.Pos) && b.RParen.Pos == old(b.RParen.Pos)
+//@     decreases len(in.remaining) + (if in.token.kind == 0 - 1 then 0 else 1)
+//@   props C20
+
+//@ # a parsed block: the parentheses are in order and every line lies between them
+//@ spec macro BLOCKPOS(b *LineBlock) bool =
+//@     b != nil && b.Start.Byte <= b.LParen.Pos.Byte && b.LParen.Pos.Byte < b.RParen.Pos.Byte
+//@     && (forall j int :: 0 <= j && j < len(b.Line) ==> b.Line[j] != nil && b.Line[j].InBlock && len(b.Line[j].Token) >= 1 && b.LParen.Pos.Byte < b.Line[j].Start.Byte && b.Line[j].Start.Byte <= b.Line[j].End.Byte && b.Line[j].End.Byte <= b.RParen.Pos.Byte)
+//@ func (*input).parseLineBlock
+//@   requires PARSEST(in) && start.Byte <= lparen.pos.Byte && lparen.pos.Byte < lparen.endPos.Byte && lparen.endPos.Byte <= in.token.pos.Byte
+//@   modifies input.remaining, input.pos, Position.Line, Position.LineRune, Position.Byte, input.tokenStart, input.token, token.kind, token.text, token.pos, token.endPos
+//@   modifies input.comments, []Comment, input.parseErrors, []Error
+//@   modifies Comments.Before, []*Line
+//@   allocates
+//@   ensures [C20] state_kept: PARSEST(in) && in.complete == old(in.complete) && in.file == old(in.file)
+//@   ensures [C20] block_positions: fresh(result) && BLOCKPOS(result) && result.Start == start && result.Token == token && result.LParen.Pos == lparen.pos && result.RParen.Pos.Byte <= in.token.pos.Byte
+//@   ensures [C20] progress: len(in.remaining) < old(len(in.remaining)) || in.token.kind == 0 - 1
+//@   ensures forall l *Line :: !fresh(l) ==> l.Start == old(l.Start) && l.End == old(l.End)
+//@   ensures forall b *LineBlock :: !fresh(b) ==> b.Start == old(b.Start) && b.LParen.Pos == old(b.LParen.Pos) && b.RParen.Pos == old(b.RParen.Pos)
+//@   loop 0:
+//@     invariant PARSEST(in) && in.complete == old(in.complete) && in.file == old(in.file) && x != nil && fresh(x) && fresharr(x.Line)
+//@     invariant x.Start == start && x.Token == token && x.LParen.Pos == lparen.pos && lparen.endPos.Byte <= in.token.pos.Byte
+//@     invariant forall j int :: 0 <= j && j < len(x.Line) ==> x.Line[j] != nil && fresh(x.Line[j]) && x.Line[j].InBlock && len(x.Line[j].Token) >= 1 && x.LParen.Pos.Byte < x.Line[j].Start.Byte && x.Line[j].Start.Byte <= x.Line[j].End.Byte && x.Line[j].End.Byte <= in.token.pos.Byte
+//@     invariant len(in.remaining) <= old(len(in.remaining))
+//@     invariant forall l *Line :: !fresh(l) ==> l.Start == old(l.Start) && l.End == old(l.End)
+//@     invariant forall b *LineBlock :: !fresh(b) ==> b.Start == old(b.Start) && b.LParen.Pos == old(b.LParen.Pos) && b.RParen.Pos == old(b.RParen.Pos)
+//@     decreases len(in.remaining) + (if in.token.kind == 0 - 1 then 0 else 1)
+//@   props C20
+
+//@ # a parsed top-level statement: a line whose end is not before its start, or a block with ordered positions
+//@ spec macro STMTPOS(e Expr) bool =
+//@     (ISLINE(e) ==> ifaceptr(e) != 0 && !ifaceptr(e, "*Line").InBlock && len(ifaceptr(e, "*Line").Token) >= 1 && ifaceptr(e, "*Line").Start.Byte <= ifaceptr(e, "*Line").End.Byte)
+//@     && (ISBLOCK(e) ==> BLOCKPOS(ifaceptr(e, "*LineBlock")) && len(ifaceptr(e, "*LineBlock").Token) >= 1)
+//@ func (*input).parseStmt
+//@   requires PARSEST(in) && in.file != nil && in.token.kind != 0 - 1
+//@   modifies input.remaining, input.pos, Position.Line, Position.LineRune, Position.Byte, input.tokenStart, input.token, token.kind, token.text, token.pos, token.endPos
+//@   modifies input.comments, []Comment, input.parseErrors, []Error, Comments.Before, []*Line, FileSyntax.Stmt, []Expr
+//@   allocates
+//@   ensures [C20] state_kept: PARSEST(in) && in.complete == old(in.complete) && in.file == old(in.file)
+//@   ensures [C20] one_statement_added: len(in.file.Stmt) == old(len(in.file.Stmt)) + 1 && (forall k int :: 0 <= k && k < old(len(in.file.Stmt)) ==> in.file.Stmt[k] == old(in.file.Stmt[k]))
+//@   ensures [C20] statement_positions: (ISLINE(in.file.Stmt[len(in.file.Stmt)-1]) || ISBLOCK(in.file.Stmt[len(in.file.Stmt)-1])) && STMTPOS(in.file.Stmt[len(in.file.Stmt)-1])
+//@   ensures [C20] progress: len(in.remaining) < old(len(in.remaining)) || in.token.kind == 0 - 1
+//@   ensures forall l *Line :: !fresh(l) ==> l.Start == old(l.Start) && l.End == old(l.End)
+//@   ensures forall b *LineBlock :: !fresh(b) ==> b.Start == old(b.Start) && b.LParen.Pos == old(b.LParen.Pos) && b.RParen.Pos == old(b.RParen.Pos)
+//@   loop 0:
+//@     invariant PARSEST(in) && in.complete == old(in.complete) && in.file == old(in.file) && in.file != nil && in.file.Stmt == old(in.file.Stmt) && len(tokens) >= 1
+//@     invariant start.Byte == old(in.token.pos.Byte) && start.Byte <= end.Byte && end.Byte <= in.token.pos.Byte
+//@     invariant len(in.remaining) < old(len(in.remaining)) || in.token.kind == 0 - 1
+//@     invariant forall l *Line :: !fresh(l) ==> l.Start == old(l.Start) && l.End == old(l.End)
+//@     invariant forall b *LineBlock :: !fresh(b) ==> b.Start == old(b.Start) && b.LParen.Pos == old(b.LParen.Pos) && b.RParen.Pos == old(b.RParen.Pos)
+//@     decreases len(in.remaining) + (if in.token.kind == 0 - 1 then 0 else 1)
+//@   props C20
